@@ -1,6 +1,79 @@
-(* Props_C05.v — property C05: ONLY theorem statements. *)
-From Verif Require Import Base C05_Model C05_Check C05_Proofs.
+(* Props_C05.v — property C05: ONLY theorem statements, each closed by [exact] of a lemma
+   from C05_Proofs*, followed by Print Assumptions.
 
-Theorem c05_no_pipeline_no_change : forall df hf db, s_db (run_op df hf [] db) = db.
-Proof. exact run_op_nil. Qed.
-Print Assumptions c05_no_pipeline_no_change.
+   [run_op dfault hfault pipes db0] is the model C05_Check evaluates: the operation is the
+   sequence of pipelines (BEGIN; body; COMMIT|ROLLBACK) recorded in its fault-free run; dfault /
+   hfault are ARBITRARY sets of failing driver-operation / hook-invocation indices; bodies are
+   arbitrary event lists. The database is the list of statements (identified by their position
+   in the fault-free sequence) whose effect is durable. *)
+From Verif Require Import Base C05_Model C05_Check C05_Proofs C05_Proofs2.
+
+(* ALL OR NOTHING, one pipeline (Create, Create of a slice, CreateInBatches, Updates, Delete, Save
+   of an existing or a key-less record): either no event failed, Error is nil and every statement
+   of the operation is durable, or Error is set and the database is exactly as it was — for
+   every body, every set of failing driver operations (BEGIN, any statement, COMMIT, ROLLBACK)
+   and every set of failing hooks *)
+Theorem c05_all_or_nothing_partial : forall dfault hfault b db0,
+  let s := run_op dfault hfault [b] db0 in
+  (s_err s = [] /\ s_db s = db0 ++ seq 0 (nstmts b)) \/ (s_err s <> [] /\ s_db s = db0).
+Proof. exact single_pipeline_all_or_nothing. Qed.
+Print Assumptions c05_all_or_nothing_partial.
+
+(* ... and the statement is FALSE for an operation made of two pipelines (what Save does for a
+   preset key that matches no row; witness replayed on gorm: corpus/C05, a known finding) *)
+Theorem c05_all_or_nothing_refuted :
+  exists pipes k, let s := run_op (fault_at (Some k)) (fault_at None) pipes [] in
+    s_err s <> [] /\ s_db s <> [] /\ s_db s <> seq 0 (total_stmts pipes) /\ s_open s = 0%Z.
+Proof. exact two_pipelines_witness. Qed.
+Print Assumptions c05_all_or_nothing_refuted.
+
+(* the general statement, any number of pipelines: exactly the pipelines before the first
+   failing one are durable; Error is nil iff all of them committed; Error is the accumulation
+   of the failed events; no transaction stays open *)
+Theorem c05_operation : forall dfault hfault pipes db0,
+  let s := run_op dfault hfault pipes db0 in
+  s_open s = 0%Z
+  /\ s_err s = map ev_errk (filter ev_failed (rev (s_out s)))
+  /\ s_db s = db0 ++ seq 0 (total_stmts (firstn (s_commits s) pipes))
+  /\ (s_commits s <= length pipes)%nat
+  /\ (s_err s = [] -> s_commits s = length pipes)
+  /\ (s_err s <> [] -> (s_commits s < length pipes)%nat).
+Proof. exact op_spec. Qed.
+Print Assumptions c05_operation.
+
+(* THE FAILURE IS REPORTED: Error is non-nil iff some event failed, and errors.Is finds the error
+   of the last failed event (the injected fault / the hook's error) *)
+Theorem c05_error_reported : forall dfault hfault pipes db0,
+  let s := run_op dfault hfault pipes db0 in
+  let failed := filter ev_failed (rev (s_out s)) in
+  (failed = [] -> s_err s = []) /\
+  (failed <> [] -> s_err s <> [] /\ last (s_err s) XNil = ev_errk (last failed EMark)).
+Proof. exact error_reported. Qed.
+Print Assumptions c05_error_reported.
+
+(* THE IMPLICIT TRANSACTION IS ALWAYS FINISHED *)
+Theorem c05_tx_closed : forall dfault hfault pipes db0, s_open (run_op dfault hfault pipes db0) = 0%Z.
+Proof. exact tx_closed. Qed.
+Print Assumptions c05_tx_closed.
+
+(* THE GUARD DISCIPLINE: once Error is set no further driver operation is issued by the body *)
+Theorem c05_no_statement_after_failure : forall dfault hfault b s, s_err s <> [] ->
+  s_nops (fold_left (step dfault hfault) b s) = s_nops s /\ s_work (fold_left (step dfault hfault) b s) = s_work s.
+Proof. exact body_silent. Qed.
+Print Assumptions c05_no_statement_after_failure.
+
+(* the checker's specification half holds on the model's own output (one pipeline) *)
+Theorem c05_spec_holds : forall dfault hfault b db0 free df hf,
+  let s := run_op dfault hfault [b] db0 in
+  spec_holds (mk_case free df hf (rev (s_out s)) (last (s_err s) XNil) false
+                      (match_of s db0 [b]) 0%Z (s_open s)) = true.
+Proof. exact spec_holds_model. Qed.
+Print Assumptions c05_spec_holds.
+
+(* non-vacuity: a body with hooks and statements, a failing third driver operation *)
+Example c05_instance :
+  let s := run_op (fault_at (Some 2%nat)) (fault_at None)
+             [[EMark; EHook false; EOp DStmt false; EOp DStmt false; EMark; EHook false; EOp DStmt false]] [7%nat] in
+  s_err s = [XFault] /\ s_db s = [7%nat] /\ s_open s = 0%Z
+  /\ rev (s_out s) = [EOp DBegin false; EHook false; EOp DStmt false; EOp DStmt true; EOp DRollback false].
+Proof. vm_compute. repeat split. Qed.
